@@ -26,71 +26,136 @@ func ruleCode128Encoder(c *Ctx) {
 	if fn := c.theFunc(R4, "code128.EncodeWithColor"); fn != nil && addBit != nil {
 		n := NewNormer(c.P)
 		n.BindParams(fn, "content", "color")
-		var hdr *ssa.BasicBlock
-		var sumP, posP *ssa.Phi
-		for _, b := range fn.Blocks {
-			if p, init, ok := loopCounter(b); ok && init == -1 {
-				hdr, posP = b, p
+		// range loops over a byte slice, in EncodeWithColor or a helper it calls: the loop that draws
+		// the data patterns and the loop that accumulates the weighted sum (they may be the same loop)
+		type rloop struct {
+			F          *ssa.Function
+			path       []ssa.CallInstruction
+			hdr        *ssa.BasicBlock
+			posP, sumP *ssa.Phi
+			subj, elem ssa.Value
+		}
+		var loops []*rloop
+		seenF := map[*ssa.Function]bool{}
+		scan := func(F *ssa.Function, path []ssa.CallInstruction) {
+			if seenF[F] {
+				return
+			}
+			seenF[F] = true
+			for _, b := range F.Blocks {
+				p, init, ok := loopCounter(b)
+				if !ok || init != -1 {
+					continue
+				}
+				l := &rloop{F: F, path: path, hdr: b, posP: p}
 				for _, ins := range b.Instrs {
 					if q, ok := ins.(*ssa.Phi); ok && q != p && isIntType(q.Type()) {
-						sumP = q
+						l.sumP = q
 					}
+				}
+				idx, _, _, _ := loopIndex(b)
+				eachInstr(F, func(bb *ssa.BasicBlock, ins ssa.Instruction) {
+					if ia, ok := ins.(*ssa.IndexAddr); ok && ia.Index == idx && b.Dominates(bb) {
+						for _, r := range *ia.Referrers() {
+							if ld, ok := r.(*ssa.UnOp); ok {
+								l.subj, l.elem = ia.X, ld
+							}
+						}
+					}
+				})
+				if l.elem != nil {
+					loops = append(loops, l)
 				}
 			}
 		}
-		if hdr == nil || sumP == nil {
+		scan(fn, nil)
+		c.P.deepEach(fn, 2, func(s DeepSite) { scan(s.Fn, s.Path) })
+		var dataCall, checkCall, stopCall *ssa.Call
+		var draw, sumL *rloop
+		for _, call := range callsTo(fn, addBit) {
+			ix := patternIndex(call)
+			if ix == nil {
+				c.Check(R4, "code128.EncodeWithColor/pattern-source", call.Pos(), false, "patterns come from encodingTable", call.String())
+				continue
+			}
+			isData := false
+			for _, l := range loops {
+				if l.F == fn && ix == l.elem && l.hdr.Succs[0].Dominates(call.Block()) {
+					dataCall, draw, isData = call, l, true
+				}
+			}
+			if isData {
+				continue
+			}
+			if k, ok := n.Norm(ix).IsConst(); ok {
+				stopCall = call
+				c.Check(R4, "code128.EncodeWithColor/stop", call.Pos(), k == 106, "106", fmt.Sprint(k))
+			} else {
+				checkCall = call
+			}
+		}
+		for _, l := range loops {
+			if l.sumP != nil {
+				sumL = l
+			}
+		}
+		if draw == nil || sumL == nil {
 			c.Undecided(R4, "code128.EncodeWithColor/loop", fn.Pos(), "symbol value loop with a running sum not found")
+		} else if dataCall == nil || checkCall == nil || stopCall == nil {
+			c.Check(R4, "code128.EncodeWithColor/patterns", fn.Pos(), false, "data patterns, check pattern, stop pattern", fmt.Sprintf("data=%v check=%v stop=%v", dataCall != nil, checkCall != nil, stopCall != nil))
 		} else {
-			n.Bind[sumP] = "sum"
-			n.Bind[posP] = "p"
-			var idxAtom ssa.Value
-			var dataCall, checkCall, stopCall *ssa.Call
-			for _, call := range callsTo(fn, addBit) {
-				ix := patternIndex(call)
-				if ix == nil {
-					c.Check(R4, "code128.EncodeWithColor/pattern-source", call.Pos(), false, "patterns come from encodingTable", call.String())
+			hdr := draw.hdr
+			n.Bind[sumL.sumP] = "sum"
+			n.Bind[sumL.posP] = "p"
+			n.Bind[sumL.elem] = "v"
+			// both loops walk the same symbol values
+			saved := n.Ctx
+			n.Ctx = sumL.path
+			s1 := n.Norm(sumL.subj).String()
+			n.Ctx = saved
+			s2 := n.Norm(draw.subj).String()
+			c.Check(R4, "code128.EncodeWithColor/same-values", dataCall.Pos(), s1 == s2, "the weighted sum runs over the symbol values that are drawn", fmt.Sprintf("sum over %s, drawn %s", s1, s2))
+			c.Check(R4, "code128.EncodeWithColor/order", stopCall.Pos(), dominatesInstr(checkCall, stopCall) && hdr.Dominates(checkCall.Block()) && !hdr.Succs[0].Dominates(checkCall.Block()), "check pattern after the data, stop last", "ok")
+			cix := patternIndex(checkCall)
+			if sumL.F == fn {
+				c.expectPoly(R4, "code128.EncodeWithColor/check-index", checkCall.Pos(), n, cix, "sum % 103")
+			} else {
+				// the helper's result: sum % 103 of the finished loop
+				hc, isCall := cix.(*ssa.Call)
+				good := isCall && hc.Common().StaticCallee() == sumL.F && len(sumL.path) == 1 && sumL.path[0] == ssa.CallInstruction(hc)
+				got := n.Norm(cix).String()
+				if good {
+					for _, ret := range returnsOf(sumL.F) {
+						got = n.Norm(ret.Results[0]).String()
+						if !pEqual(n.Norm(ret.Results[0]), MustRef("sum % 103")) || sumL.hdr.Succs[0].Dominates(ret.Block()) {
+							good = false
+						}
+					}
+				}
+				c.Check(R4, "code128.EncodeWithColor/check-index", checkCall.Pos(), good, "sum % 103 of the finished weighted-sum loop", got)
+			}
+			// reported checksum is the same value
+			for _, ret := range returnsOf(fn) {
+				if call, ok := ret.Results[0].(*ssa.Call); ok && len(call.Common().Args) >= 4 {
+					c.Check(R4, "code128.EncodeWithColor/reported-value", call.Pos(), call.Common().Args[3] == cix, "the value that indexed the check pattern", n.Norm(call.Common().Args[3]).String())
+					c.Check(R4, "code128.EncodeWithColor/content", call.Pos(), call.Common().Args[1] == ssa.Value(fn.Params[0]), "content", n.Norm(call.Common().Args[1]).String())
+				}
+			}
+			// the sum update
+			sumP, sh := sumL.sumP, sumL.hdr
+			var upd []valCase
+			for ei, e := range sumP.Edges {
+				if !sh.Dominates(sh.Preds[ei]) {
+					c.expectPoly(R4, "code128.EncodeWithColor/sum-start", sumP.Pos(), n, e, "0")
 					continue
 				}
-				switch {
-				case hdr.Dominates(call.Block()) && hdr.Succs[0].Dominates(call.Block()):
-					dataCall, idxAtom = call, ix
-				default:
-					if k, ok := n.Norm(ix).IsConst(); ok {
-						stopCall = call
-						c.Check(R4, "code128.EncodeWithColor/stop", call.Pos(), k == 106, "106", fmt.Sprint(k))
-					} else {
-						checkCall = call
-					}
+				pred := sh.Preds[ei]
+				edge := cAnd(n.ReachCond(sumL.F, sh.Succs[0], pred), n.EdgeCond(pred, sh))
+				for _, cs := range n.valueCases(sumL.F, sh.Succs[0], e, 0) {
+					upd = append(upd, valCase{cs.val, cAnd(edge, cs.cond)})
 				}
 			}
-			if dataCall == nil || checkCall == nil || stopCall == nil {
-				c.Check(R4, "code128.EncodeWithColor/patterns", fn.Pos(), false, "data patterns, check pattern, stop pattern", fmt.Sprintf("data=%v check=%v stop=%v", dataCall != nil, checkCall != nil, stopCall != nil))
-			} else {
-				n.Bind[idxAtom] = "v"
-				c.Check(R4, "code128.EncodeWithColor/order", stopCall.Pos(), dominatesInstr(checkCall, stopCall) && hdr.Dominates(checkCall.Block()), "check pattern after the data, stop last", "ok")
-				cix := patternIndex(checkCall)
-				c.expectPoly(R4, "code128.EncodeWithColor/check-index", checkCall.Pos(), n, cix, "sum % 103")
-				// reported checksum is the same value
-				for _, ret := range returnsOf(fn) {
-					if call, ok := ret.Results[0].(*ssa.Call); ok && len(call.Common().Args) >= 4 {
-						c.Check(R4, "code128.EncodeWithColor/reported-value", call.Pos(), call.Common().Args[3] == cix, "the value that indexed the check pattern", n.Norm(call.Common().Args[3]).String())
-						c.Check(R4, "code128.EncodeWithColor/content", call.Pos(), call.Common().Args[1] == ssa.Value(fn.Params[0]), "content", n.Norm(call.Common().Args[1]).String())
-					}
-				}
-				// the sum update
-				for ei, e := range sumP.Edges {
-					if !hdr.Dominates(hdr.Preds[ei]) {
-						c.expectPoly(R4, "code128.EncodeWithColor/sum-start", sumP.Pos(), n, e, "0")
-						continue
-					}
-					up, ok := e.(*ssa.Phi)
-					if !ok {
-						c.Undecided(R4, "code128.EncodeWithColor/sum-update", sumP.Pos(), "sum update is not the first/other choice")
-						continue
-					}
-					checkPhiDef(c, R4, "code128.EncodeWithColor/sum-update", n, fn, hdr.Succs[0], up, []edgeSpec{{"v", "p + 1 == 0"}, {"sum + (p+1)*v", "p + 1 != 0"}})
-				}
-			}
+			checkCases(c, R4, "code128.EncodeWithColor/sum-update", sumP.Pos(), mergeCases(upd), []edgeSpec{{"v", "p + 1 == 0"}, {"sum + (p+1)*v", "p + 1 != 0"}})
 		}
 	}
 	if fn := c.theFunc(R4, "code128.EncodeWithoutChecksumWithColor"); fn != nil && addBit != nil {
